@@ -25,6 +25,14 @@ CHECKS = {
    text="reduce_deg is proved (z3) to return a value strictly inside (-360, 360) with the sign of the input and differing from it by exactly 360 k for every real / every integer / every dyadic input up to 1e15; reduce_dms and dms2deg give sign*(|d|+|m|/60+|s|/3600) mod 360 with canonical fields for all pieces (fractional, overflowing, negative); all 15 constructor forms, all 50 operator x operand-type x in-place/reflected combinations and the unary operators/views are verified from the AST of the real methods: result in range, congruent to the real-number result, operands unchanged, result a new object, ZeroDivisionError exactly for a zero divisor. The operators are checked modularly against the reduce_deg contract.",
    note="R-mode (real arithmetic); pow is uninterpreted; % is asserted on canonical operands (positive divisor, reflected left operand inside (-360,360)) where modulo respects congruence. The binary64 clause (1e-9 scaled, denormals, +-1 ulp at 0 and +-360, |x| up to 1e15) is a bounded stand-in (2e4/1e6 seeded values). Two genuine defects (ra=True not reduced; to_positive() = 360.0) found and repaired.",
    technique="contract-based deductive verification (AST VCs + z3, modular use of the reduce_deg contract); bounded run-time contracts for binary64", ref="DESIGN.md §3 C03"),
+ "C02": dict(category="proof",
+   text="get_date with a day fraction is proved (z3, three proved cuts) to return the civil label of floor(JDE+0.5) plus the fraction for every civil day of every year >= -4712; over that contract and the _compute_jde contract the lemmas are proved for every JDE k/2^20 in [0, 5.4e6]: canonical fields (hour 0..23, minute 0..59, 0 <= second < 60, day within month), exact recomposition, JDE -> fields -> JDE, monotone date tuple, 16 input forms (separate numbers, tuple, list, set(), copy, number, month names, fractional day, date/datetime, check_input_date) giving the same JDE, and the arithmetic/comparison operators ((e+x)-e = x, e-(e-x) = x, reflected and in-place forms equal, operands unchanged, ordering as JDE).",
+   note="R-mode (exact rationals). The 1e-8 / 1e-9 day binary64 tolerances are a bounded stand-in over boundary instants (+-1 ulp .. +-0.5 d around every month start of sampled years, the reform instant) and 2e4/2e6 seeded JDE. Surjectivity of (civil day, fraction) -> JDE rests on the C01 successor lemma.",
+   technique="contract-based deductive verification (AST VCs + z3, modular: get_date and _compute_jde contracts at call sites); bounded run-time contracts for binary64", ref="DESIGN.md §3 C02"),
+ "C04": dict(category="proof",
+   text="deg2dms / dms_tuple / ra_tuple: integer degrees in [0,360) (hours [0,24)), integer minutes in [0,60), seconds in [0,60), sign +-1 and exact recomposition, proved for every input k/2^30; dms_str / ra_str for n_dec in {-1,0,1,2,3,6,9,12}, both styles: on every return path the format template is one of the documented shapes, the minutes and seconds arguments are below 60 after the rounding carry, only the leading non-zero field carries the sign, and the shown fields equal the value rounded at the requested decimal modulo 360 degrees / 24 h (2233 obligations, z3).",
+   note="R-mode; round(s, n) is an assumed builtin contract; the character strings themselves (float repr, exponent notation) are checked by a bounded parse-back of the real output (99000 / 9.9e6 strings near field boundaries).",
+   technique="contract-based deductive verification (AST VCs + z3) with the format string kept as template + arguments; bounded parse-back", ref="DESIGN.md §3 C04"),
 }
 NA_REASON = "check not built yet (work in progress; DESIGN.md has the plan)"
 
